@@ -96,7 +96,7 @@ import random
 def gen():
     """TLC witness generation (one shortest token sequence per coarse state class of MC_Term.GenView)."""
     res = {}
-    for name, cfg in (("ansi", "Gen_Term.cfg"), ("tabs", "Gen_Term_tabs.cfg"), ("avatar", "Gen_Term_avatar.cfg"), ("ctrla", "Gen_Term_ctrla.cfg")):
+    for name, cfg in (("ansi", "Gen_Term.cfg"), ("tabs", "Gen_Term_tabs.cfg"), ("resize", "Gen_Term_resize.cfg"), ("avatar", "Gen_Term_avatar.cfg"), ("ctrla", "Gen_Term_ctrla.cfg")):
         res[name] = vlib.generate(SPEC, "MC_Term", cfg, os.path.join(vlib.GEN, f"term_witness_{name}.ndjson"), timeout=1500)
     return res
 
@@ -118,16 +118,20 @@ def witness_cases(c, n_shards, per_witness, seed, max_cases=None, extra_sizes=((
     gen()
     rng = random.Random(seed * 7919 + 17)
     cases = []
-    for emu0 in ("ansi", "tabs", "avatar", "ctrla"):
+    for emu0 in ("ansi", "tabs", "resize", "avatar", "ctrla"):
         alphabet, wit = load_witnesses(emu0)
-        emu = "ansi" if emu0 == "tabs" else emu0
+        emu = "ansi" if emu0 in ("tabs", "resize") else emu0
         gw = 9 if emu0 == "tabs" else 3        # screen width the witnesses were generated for
         for wi, h in enumerate(wit):
             base = [b for tok in h for b in tok]
             # every witness is extended by a printable (the one token that exercises wrap / margin / insert handling in
             # whatever state class the witness reached) and by random tokens of the model's alphabet
             # (small slices - tabs, avatar, ctrla - take every token of their alphabet: full edge coverage)
-            toks = alphabet if per_witness == "all" or emu0 != "ansi" else [[65]] + [rng.choice(alphabet) for _ in range(per_witness)]
+            # (the resize slice has 5k witnesses: a sample of its alphabet per witness in the quick tier, all of it in the thorough one)
+            if emu0 == "resize" and per_witness != "all" and per_witness < 3:
+                toks = [[65]] + [rng.choice(alphabet) for _ in range(6)]
+            else:
+                toks = alphabet if per_witness == "all" or emu0 != "ansi" else [[65]] + [rng.choice(alphabet) for _ in range(per_witness)]
             for ti, tok in enumerate(toks):
                 w, hh = (gw, 2) if rng.random() < 0.7 else rng.choice(extra_sizes)
                 cases.append({"id": f"w-{emu0}-{wi}-{ti}", "emu": emu, "music": 0, "w": w, "h": hh, "alloc": rng.randrange(2), "bs": 0,
@@ -184,7 +188,7 @@ def string_mutation_cases(c, thorough):
 
 def mc_slices(c, thorough):
     depth = 4 if thorough else 3
-    for sl in ("cursor", "margins", "content", "tabs", "avatar", "ctrla", "petscii", "viewdata", "mode7", "atascii"):
+    for sl in ("cursor", "margins", "content", "tabs", "resize", "avatar", "ctrla", "petscii", "viewdata", "mode7", "atascii"):
         cfg = f"MC_Term_{sl}.cfg"
         if thorough:
             src = open(os.path.join(vlib.ROOT, SPEC, cfg)).read().replace("MaxHist = 3", f"MaxHist = {depth}")
